@@ -135,11 +135,11 @@ def flavour(spec):
 
 # ----------------------------------------------------------------------------- constraints
 
-def gen_constraint(r, space):
+def gen_constraint(r, space, kinds=("half", "parity", "band", "mask", "paritysum")):
     """a constraint spec with feasible fraction >= 25 % (checked by enumeration when small, else by sampling)"""
     names = list(space)
     for _ in range(50):
-        kind = r.choice(["half", "parity", "band", "mask", "paritysum"])
+        kind = r.choice(list(kinds))
         spec = {"kind": kind, "dim": r.randrange(len(names)), "salt": r.randrange(10_000),
                 "k": r.choice([2, 3]), "frac": r.choice([0.5, 0.6, 0.75])}
         if feasible_fraction(spec, space, r) >= 0.25:
@@ -170,6 +170,11 @@ def build_constraint(spec, space):
             return s % 4 != 3
         if kind == "mask":
             return _h(salt, *[idx(para, n) for n in names]) % 100 < int(frac * 100)
+        if kind == "ring":
+            # a forbidden ring around the centre of the index box (non-convex feasible region)
+            d2 = sum((idx(para, n) - (len(space[n]) - 1) / 2) ** 2 for n in names)
+            rad2 = sum(((len(space[n]) - 1) / 2) ** 2 for n in names)
+            return not (0.15 * rad2 <= d2 <= (0.15 + 0.3 * frac) * rad2)
         raise ValueError(kind)
 
     return c
